@@ -115,13 +115,20 @@ class SSCChart(BaseChart):
             # Either NOTES or NOTES2 must be the last chart property
             if key == notes_key:
                 continue
-            if key in BaseSimfile.MULTI_VALUE_PROPERTIES:
+            if value is None:
+                # Key-only property (e.g. `#CREDIT;`)
+                param = MSDParameter((key,))
+            elif key in BaseSimfile.MULTI_VALUE_PROPERTIES:
                 param = MSDParameter((key, *value.split(":")))
             else:
                 param = MSDParameter((key, value))
             file.write(f"{param}\n")
 
-        notes_param = MSDParameter((notes_key, self[notes_key]))
+        notes_value = self[notes_key]
+        if notes_value is None:
+            notes_param = MSDParameter((notes_key,))
+        else:
+            notes_param = MSDParameter((notes_key, notes_value))
         file.write(f"{notes_param}\n\n")
 
 
